@@ -107,7 +107,8 @@ def validate(tr, meta):
                        metaname=meta, timeout=900)
     errs = re.findall(r'err = "([^"]*)"', r.out)
     ls = re.findall(r'^/\\ l = (\d+)', r.out, flags=re.M)
-    return r, (errs[-1] if errs else ""), (int(ls[-1]) if ls else None)
+    # the state that carries `err` already points past the record that broke the rule
+    return r, (errs[-1] if errs else ""), (int(ls[-1]) - 1 if ls else None)
 
 
 def explain(tr, meta):
